@@ -51,10 +51,10 @@ CONFIG = 'class CfgTest { num = 1; txt = "t"; arr[] = {1,{2,3},"x"}; class Sub {
 
 SCALAR = ["0", "-0", "1", "-1", "0.5", "2", "3", "20", "255", "1e10", "-1e10", "2147483648", "-2147483649", "3.4e38", "(1e38*10)", "(-1e38*10)", "(sqrt -1)", "1e-30"]
 SCALAR_Q = ["0", "1", "-1", "0.5", "1e10", "-1e10", "20", "-2147483649", "3.4e38", "(1e38*10)", "(sqrt -1)"]
-STRING = ['""', '"a"', '"%1"', '"%"', '"%0"', '"%99999999999"', "STR64", '(toString [200,255,1])', '"1"', '"a,b"', '"/sub/../f.sqf"', '"f.sqf"', '"CfgTest"', '"m1"', '"Land_Test"', '"_x"', '"1 +"', '"#define A A\nA"']
-STRING_Q = ['""', '"a"', '"%99999999999"', '"%1"', "STR64", '"f.sqf"', '"1 +"', '"CfgTest"']
-REPS = ["0", '"a"', "[]", "{}", "objNull", "true", "[1,2]", "-1", "OBJ", "1e10"]
-REPS_Q = ["0", '"a"', "[]", "{}", "objNull", "-1"]
+STRING = ['""', '"a"', '"%1"', '"%"', '"%0"', '"%99999999999"', "STR64", '(toString [200,255,1])', '"1"', '"a,b"', '"/sub/../f.sqf"', '"f.sqf"', '"CfgTest"', '"m1"', '"Land_Test"', '"_x"', '"1 +"', '"#define A A\nA"', '"one.sqf"', '"empty.sqf"', '"bom1.sqf"', '"bom2.sqf"', '"bom3.sqf"', '"bom4.sqf"', '"bom5.sqf"', '"bom6.sqf"', '"bom7.sqf"', '"bom8.sqf"']
+STRING_Q = ['""', '"a"', '"%99999999999"', '"%1"', "STR64", '"f.sqf"', '"1 +"', '"CfgTest"', '"bom1.sqf"', '"bom3.sqf"', '"Land_Test"']
+REPS = ["0", '"a"', "[]", "{}", "objNull", "true", "[1,2]", "-1", "OBJ", "1e10", "configFile", "configNull", "grpNull"]
+REPS_Q = ["0", '"a"', "[]", "{}", "objNull", "-1", "configFile"]
 CODE = ["{}", "{true}", "{1}", "{nil}", "{_x}", "{throw 1}", "{_this}", '{1 + "a"}', "{false}"]
 CODE_Q = ["{}", "{true}", "{1}", "{_x}", "{throw 1}"]
 OTHER = {
@@ -199,10 +199,13 @@ def text_of(c):
 
 def setup_scratch():
     os.makedirs(os.path.join(SCRATCH, "sub"), exist_ok=True)
-    for name, content in (("f.sqf", "diag_log 1"), ("sub/f.sqf", "diag_log 2"), ("one.sqf", "x"), ("empty.sqf", "")):
+    for name, content in (("f.sqf", b"diag_log 1"), ("sub/f.sqf", b"diag_log 2"), ("one.sqf", b"x"), ("empty.sqf", b""),
+                          # files that end inside what looks like the start of a byte order mark
+                          ("bom1.sqf", b"\xef"), ("bom2.sqf", b"\xef\xbb"), ("bom3.sqf", b"\x00\x00"), ("bom4.sqf", b"\xfe"),
+                          ("bom5.sqf", b"\xff\xff\x00"), ("bom6.sqf", b"\x2b\x2f\x76"), ("bom7.sqf", b"\xfb\xee\x28"), ("bom8.sqf", b"\xef\xbb\xbf")):
         p = os.path.join(SCRATCH, name)
         if not os.path.exists(p):
-            open(p, "w").write(content)
+            open(p, "wb").write(content)
 
 
 def kind_class(kind):
